@@ -50,6 +50,19 @@ pub fn run(ctx: &Ctx) -> Result<()> {
 	let mut col = Collector::new(&ctx.out)?;
 	let rt = tokio::runtime::Builder::new_current_thread().enable_all().build()?;
 	let mut rng = Rng::new(ctx.seed ^ 0x12);
+	// premise of the model: the real file writer starts from an empty file, whatever was at the path before
+	{ use versatiles_core::io::DataWriterFile;
+		let p = std::fs::canonicalize(&ctx.out)?.join("existing.bin");
+		std::fs::write(&p, vec![0xABu8; 40_000])?;
+		col.spec_cases += 1;
+		match guarded(|| DataWriterFile::from_path(&p)) {
+			Ok(Ok(mut w)) => { let _ = w.append(&Blob::from(vec![1u8, 2, 3])); drop(w); let len = std::fs::metadata(&p).map(|m| m.len()).unwrap_or(0);
+				if len != 3 { col.violation("stale-bytes", "DataWriterFile::from_path on an existing 40000-byte file, then append of 3 bytes", "", &format!("the file is {len} bytes long: bytes of the previous file survive, so an interrupted overwrite of a container keeps the old header and directory in front of new tile data")); } }
+			Ok(Err(e)) => col.violation("writer-open", "DataWriterFile::from_path on an existing file", "", &format!("{e:#}")),
+			Err(m) => col.violation("writer-open", "DataWriterFile::from_path on an existing file", "", &m),
+		}
+		let _ = std::fs::remove_file(&p);
+	}
 	let nsets = if ctx.thorough { 40 } else { 6 };
 	for i in 0..nsets {
 		let mut tiles = if i % 6 == 2 {
